@@ -10,7 +10,15 @@ the interpolation in exact integer arithmetic (`interpGuess_okAt`) and under an 
 rounding (`roundedGuessArr_okAt`) — are lifted to `fill`, `fillAll` and the element
 (`fill_interp`, `weight_conserved_interp`, `fill_rounded`, `weight_conserved_rounded`,
 `histEl2_run_rounded`).  `fillAll_ok_or_unmodelled`, `histEl2_run_ok_or_unmodelled` need no
-hypothesis on the guesses at all. -/
+hypothesis on the guesses at all.
+
+**Since lena 4fbe73b (notes/C06_defect_3.md)** the search handles a guess outside its range, the
+model has no `unmodelled` outcome in the search any more, and section "every guess" proves every
+sentence of the property for EVERY guess function: `getBinOnValue_correct`, `fill_correct`,
+`fill_exact_cell_any`, `fill_out_of_range_any`, `fill_frame_any`, `fillAll_correct`,
+`weight_conserved_any`, `histEl2_run_correct`, `elem_weight_conserved_any` (with `bin1d_correct` in
+`Props/C06Ext.lean`).  These are the theorems that carry the property; the `GuessesOK` / `…At` /
+`…_ok_or_unmodelled` forms are kept as corollaries for the files that use them. -/
 open Lena
 namespace Lena.C06
 set_option linter.unusedSectionVars false
@@ -426,6 +434,181 @@ theorem histEl2_run_rounded {fl : Rat → Rat} (empty : κ) (one : β) {h₀ : H
 
 end Rounded
 
+/-! ## every guess (the code after lena 4fbe73b, notes/C06_defect_3)
+
+Since the search treats a guess at or beyond a bound as a guess on that bound, `bin1d_correct`
+holds for every guess function, and with it every statement of the property holds with **no
+hypothesis on the interpolation at all** — in particular for the IEEE-754 evaluation the code
+really performs, whatever it rounds to. -/
+section EveryGuess
+variable {α β κ : Type} [LT α] [LE α] [DecidableLT α] [DecidableLE α] [DecidableEq α]
+  [Std.IsLinearOrder α] [Std.LawfulOrderLT α]
+
+/-- **Closed lower / open upper bound, every guess**: the result `r` is `−1` iff the value is below
+the first edge, `len − 1` iff it is `≥` the last edge, and `i` iff `arr[i] ≤ val < arr[i+1]` -/
+theorem bin1d_halfopen_any (guess : Nat → Nat → Int) {arr : List α} (hinc : StrictInc arr) (hne : arr ≠ [])
+    (val : α) :
+    ∃ r : Int, bin1d guess val arr = .ok r ∧
+      (r = -1 ↔ val < arr[0]'(List.length_pos_iff.2 hne)) ∧
+      (r = (arr.length : Int) - 1 ↔ arr[arr.length - 1]'(Nat.sub_lt (List.length_pos_iff.2 hne) Nat.one_pos) ≤ val) ∧
+      (∀ (i : Nat) (h : i + 1 < arr.length), r = (i : Int) ↔ arr[i] ≤ val ∧ val < arr[i + 1]) := by
+  have hmid : GuessOK (fun lo _ => (lo : Int)) := fun lo hi hle => ⟨Int.le_refl _, Int.ofNat_le.2 hle⟩
+  obtain ⟨r, hr, rest⟩ := bin1d_halfopen _ hmid hinc hne val
+  refine ⟨r, ?_, rest⟩
+  rw [bin1d_correct guess val hinc hne, ← bin1d_correct (fun lo _ => (lo : Int)) val hinc hne]
+  exact hr
+
+theorem binsLoop_correct (g : Nat → Nat → Nat → Int) :
+    ∀ (axes : List (List α)) (xs : List α) (k : Nat), xs.length = axes.length →
+      (∀ arr ∈ axes, ValidAxis arr) → binsLoop g k xs axes = .ok (indices axes xs)
+  | [], [], _, _, _ => rfl
+  | [], _ :: _, _, hl, _ => by simp at hl
+  | _ :: _, [], _, hl, _ => by simp at hl
+  | arr :: axes, x :: xs, k, hl, hv => by
+    have ha := hv arr (by simp)
+    have hne : arr ≠ [] := by intro h; have := ha.1; simp [h] at this
+    have ih := binsLoop_correct g axes xs (k + 1) (by simpa using hl)
+      (fun a hm => hv a (List.mem_cons_of_mem _ hm))
+    simp [binsLoop, bin1d_correct (g k) x ha.2 hne, ih, indices, bind, Except.bind, pure, Except.pure]
+
+/-- **Sentence (4), any dimension, every guess**: the index reported along every axis is
+(the number of edges not greater than the coordinate) − 1 -/
+theorem getBinOnValue_correct (g : Nat → Nat → Nat → Int) {e : Edges α} (he : ValidEdges e)
+    {c : Coord α} {xs : List α} (hp : Proper e c xs) :
+    getBinOnValue g c e = .ok (indices e.axes xs) := by
+  cases hp with
+  | flat arr x =>
+    have ha : ValidAxis arr := he.2 arr (by simp [Edges.axes])
+    have hne : arr ≠ [] := by intro h; have := ha.1; simp [h] at this
+    simp [getBinOnValue, bin1d_correct (g 0) x ha.2 hne, indices, Edges.axes, bind, Except.bind, pure, Except.pure]
+  | nested axes xs hl =>
+    have : ¬ xs.length ≠ axes.length := by simp [hl]
+    simp only [getBinOnValue, this, if_false]
+    exact binsLoop_correct g axes xs 0 hl he.2
+
+variable [Lean.Grind.AddCommMonoid β]
+
+/-- **Sentences (1)+(2), every guess**: in a well-formed histogram of any dimension a proper fill
+is exactly `specFill` — the weight goes to the one cell containing the coordinate, or to
+`n_out_of_range` if there is none -/
+theorem fill_correct (g : Nat → Nat → Nat → Int) {h : Hist α β} (hwf : WF h)
+    {c : Coord α} {xs : List α} (hp : Proper h.edges c xs) (w : β) :
+    fill g h c w =
+      .ok { h with bins := (specFill h.edges.axes (h.bins, h.nOut) xs w).1,
+                   nOut := (specFill h.edges.axes (h.bins, h.nOut) xs w).2 } := by
+  have hmid : GuessesOK (fun _ lo _ => (lo : Int)) := fun _ lo hi hle => ⟨Int.le_refl _, Int.ofNat_le.2 hle⟩
+  have h3 := fill_eq_specFill _ hmid hwf hp w
+  simp only [fill, getBinOnValue_correct _ hwf.edges hp] at h3 ⊢
+  exact h3
+
+theorem fill_exact_cell_any (g : Nat → Nat → Nat → Int) {h : Hist α β} (hwf : WF h)
+    {c : Coord α} {xs : List α} (hp : Proper h.edges c xs) (w : β) {idx : List Nat}
+    (hc : InCell h.edges.axes xs idx) :
+    fill g h c w = .ok { h with bins := NArr.modifyAt (· + w) h.bins idx } := by
+  rw [fill_correct g hwf hp w]
+  simp only [specFill, (cellOf?_eq_some_iff _ _ idx (validEdges_strictInc hwf.edges) hp.length).2 hc]
+
+theorem fill_out_of_range_any (g : Nat → Nat → Nat → Int) {h : Hist α β} (hwf : WF h)
+    {c : Coord α} {xs : List α} (hp : Proper h.edges c xs) (w : β)
+    (hno : ∀ idx, ¬ InCell h.edges.axes xs idx) :
+    fill g h c w = .ok { h with nOut := h.nOut + w } := by
+  rw [fill_correct g hwf hp w]
+  simp only [specFill, (cellOf?_eq_none_iff _ _ (validEdges_strictInc hwf.edges) hp.length).2 hno]
+
+/-- **Sentences (1)–(3) observationally, every guess** -/
+theorem fill_frame_any (g : Nat → Nat → Nat → Int) {h : Hist α β} (hwf : WF h)
+    {c : Coord α} {xs : List α} (hp : Proper h.edges c xs) (w : β) :
+    ∃ h', fill g h c w = .ok h' ∧ h'.edges = h.edges ∧ h'.dim = h.dim ∧
+      ((∃ idx c₀, InCell h.edges.axes xs idx ∧ h'.nOut = h.nOut ∧
+          NArr.get? h.bins idx = some (.leaf c₀) ∧
+          NArr.get? h'.bins idx = some (.leaf (c₀ + w)) ∧
+          ∀ j, j ≠ idx → j.length = idx.length → NArr.get? h'.bins j = NArr.get? h.bins j)
+       ∨ ((∀ idx, ¬ InCell h.edges.axes xs idx) ∧ h'.bins = h.bins ∧ h'.nOut = h.nOut + w)) := by
+  have hmid : GuessesOK (fun _ lo _ => (lo : Int)) := fun _ lo hi hle => ⟨Int.le_refl _, Int.ofNat_le.2 hle⟩
+  obtain ⟨h', hf, rest⟩ := fill_frame _ hmid hwf hp w
+  refine ⟨h', ?_, rest⟩
+  rw [fill_correct g hwf hp w, ← fill_eq_specFill _ hmid hwf hp w]
+  exact hf
+
+/-- **Any sequence of proper fills, every guess**: nothing raises, and the result is the
+specification-side interpreter -/
+theorem fillAll_correct :
+    ∀ (ops : List ((Nat → Nat → Nat → Int) × Coord α × β)) (h : Hist α β), WF h →
+      (∀ op ∈ ops, ∃ xs, Proper h.edges op.2.1 xs) →
+    fillAll h ops =
+      .ok { h with bins := (specFillAll h.edges.axes (h.bins, h.nOut) (opsPoints h.edges ops)).1,
+                   nOut := (specFillAll h.edges.axes (h.bins, h.nOut) (opsPoints h.edges ops)).2 }
+  | [], h, _, _ => rfl
+  | (g, c, w) :: rest, h, hwf, hops => by
+    obtain ⟨xs, hp⟩ := hops (g, c, w) (by simp)
+    have h1 := fill_correct g hwf hp w
+    have hwf1 := fill_wf g c w h1 hwf
+    have ih := fillAll_correct rest _ hwf1 (fun op hm => hops op (List.mem_cons_of_mem _ hm))
+    simp only [fillAll, h1, bind, Except.bind, ih, opsPoints, (properList?_iff _ _ _).2 hp,
+      Option.getD_some, specFillAll]
+
+/-- **Sentence (5) for the structure, every guess**: for strictly increasing edges in any
+dimension and any sequence of proper coordinates and weights, creation succeeds, no fill raises,
+the edges are unchanged, and the sum of all bins plus `n_out_of_range` equals the total weight -/
+theorem weight_conserved_any {e : Edges α} (he : ValidEdges e)
+    (ops : List ((Nat → Nat → Nat → Int) × Coord α × β)) (hops : ∀ op ∈ ops, ∃ xs, Proper e op.2.1 xs) :
+    ∃ h₀ h, mkHist e none (0 : β) = .ok h₀ ∧ fillAll h₀ ops = .ok h ∧ h.edges = e ∧
+      total h.bins + h.nOut = sumW (ops.map (·.2.2)) := by
+  have hd := mkHist_valid he (0 : β)
+  obtain ⟨hwf, hedges, hn, hb⟩ := mkHist_wf he (0 : β) hd
+  have hf := fillAll_correct ops _ hwf (by rw [hedges]; exact hops)
+  have hc := (fillAll_conserves ops _ _ hf).2
+  simp only [total_full_zero, zero_add', Lean.Grind.AddCommMonoid.add_zero] at hc
+  exact ⟨_, _, hd, hf, rfl, by simpa using hc⟩
+
+/-- **Sentence (5) for a re-used element, every guess** -/
+theorem histEl2_run_correct (empty : κ) (one : β) {h₀ : Hist α β} (hwf₀ : WF h₀) :
+    ∀ (ops : List (ElOp α κ)) (e : HistEl2 α β κ),
+      mkHist e.cfg.edges e.cfg.startBins e.cfg.initialValue = .ok h₀ →
+      WF e.hist → e.hist.edges = h₀.edges → ElOpsProper h₀.edges ops →
+      ∃ e', HistEl2.run empty one e ops = .ok e' ∧ e'.cfg = e.cfg ∧ WF e'.hist ∧ e'.hist.edges = h₀.edges ∧
+        total e'.hist.bins + e'.hist.nOut =
+          specSum (total h₀.bins + h₀.nOut) one (total e.hist.bins + e.hist.nOut) ops
+  | [], e, _, hwf, hed, _ => ⟨e, rfl, rfl, hwf, hed, rfl⟩
+  | .fill g c ctx :: rest, e, hm, hwf, hed, hops => by
+    obtain ⟨⟨xs, hp⟩, hrest⟩ := hops
+    have h1 := fill_correct g hwf (hed ▸ hp) one
+    have hwf1 := fill_wf g c one h1 hwf
+    have hc := (fill_conserves g e.hist _ c one h1).2.2
+    have he := (fill_conserves g e.hist _ c one h1).1
+    obtain ⟨e', hr, hcfg, hwf', hed', hs⟩ := histEl2_run_correct empty one hwf₀ rest
+      { e with hist := _, curContext := ctx.getD empty } hm hwf1 (he.trans hed) hrest
+    refine ⟨e', ?_, hcfg, hwf', hed', ?_⟩
+    · simp only [HistEl2.run, HistEl2.fill, h1, bind, Except.bind, pure, Except.pure]
+      exact hr
+    · rw [hs]; simp only [specSum, hc]
+  | .reset :: rest, e, hm, hwf, hed, hops => by
+    obtain ⟨e', hr, hcfg, hwf', hed', hs⟩ :=
+      histEl2_run_correct empty one hwf₀ rest { e with hist := h₀, curContext := empty } hm hwf₀ rfl hops
+    refine ⟨e', ?_, hcfg, hwf', hed', ?_⟩
+    · simp only [HistEl2.run, HistEl2.reset, hm, bind, Except.bind, pure, Except.pure]
+      exact hr
+    · rw [hs]; simp only [specSum]
+
+/-- **Sentence (5) for the element `Histogram(edges)`, every guess** -/
+theorem elem_weight_conserved_any (empty : κ) (one : β) {ed : Edges α} (he : ValidEdges ed)
+    (vals : List ((Nat → Nat → Nat → Int) × Coord α × Option κ))
+    (hv : ∀ v ∈ vals, ∃ xs, Proper ed v.2.1 xs) :
+    ∃ e₀ e, HistEl.new empty ed none (0 : β) = .ok e₀ ∧ HistEl.fillAll empty one e₀ vals = .ok e ∧
+      total e.hist.bins + e.hist.nOut = sumW (List.replicate vals.length one) ∧
+      e.curContext = lastCtx empty empty vals := by
+  have hops : ∀ op ∈ toOps one vals, ∃ xs, Proper ed op.2.1 xs := by
+    intro op hm
+    obtain ⟨v, hvm, rfl⟩ := List.mem_map.1 hm
+    exact hv v hvm
+  obtain ⟨h₀, h, hm, hf, _, hn⟩ := weight_conserved_any (β := β) he (toOps one vals) hops
+  refine ⟨{ hist := h₀, curContext := empty }, { hist := h, curContext := lastCtx empty empty vals }, ?_, ?_, ?_, rfl⟩
+  · simp [HistEl.new, hm, bind, Except.bind, pure, Except.pure]
+  · rw [histEl_fillAll_eq, hf]; rfl
+  · simp only []; rw [hn, sumW_toOps]
+
+end EveryGuess
+
 /-! ## non-vacuity: concrete instances (tests, not theorems) -/
 section Examples
 
@@ -486,11 +669,21 @@ example (pts : List (Coord Rat × Int)) (hp : ∀ p ∈ pts, ∃ xs, Proper (.fl
     · exact ⟨10, by simp⟩)) pts hp
 
 
-/-- the `unmodelled` disjunct of `fill_ok_or_unmodelled` is reached by a guess that leaves its range -/
-example : fill (fun _ _ _ => -5) exHist (.tuple [3, 1]) (5 : Int) = .error .unmodelled := by
-  simp only [fill, exHist, exEdges, getBinOnValue, binsLoop, bin1d, bind, Except.bind]
-  rw [bin1dLoop]
-  simp
+/-- every guess: a guess function that is never in range still fills the right cell
+(`fill_exact_cell_any`; before lena 4fbe73b the model answered `unmodelled` here and the real code
+could hang, notes/C06_defect_3.md) -/
+example : fill (fun _ _ _ => -5) exHist (.tuple [3, 1]) (5 : Int) =
+    .ok { exHist with bins := .node [.node [.leaf 0, .leaf 0], .node [.leaf 0, .leaf 0],
+                                      .node [.leaf 0, .leaf 5]] } := by
+  rw [fill_exact_cell_any _ exHist_wf ex_proper 5 ex_inCell]; rfl
+
+example : ∃ h₀ h, mkHist exEdges none (0 : Int) = .ok h₀ ∧
+    fillAll h₀ [(fun _ _ _ => 1000, .tuple [3, 1], 5), (fun _ _ _ => -7, .tuple [3, 6], -2)] = .ok h ∧
+    h.edges = exEdges ∧ total h.bins + h.nOut = 3 :=
+  weight_conserved_any exEdges_valid _ (by
+    intro op hop
+    simp only [List.mem_cons, List.not_mem_nil, or_false] at hop
+    rcases hop with rfl | rfl <;> exact ⟨_, Proper.nested _ _ rfl⟩)
 
 /-- `fill_interp`, `weight_conserved_interp` on the 3 × 2 mesh -/
 example : fill (interpGuessN exHist.edges.axes [3, 1]) exHist (.tuple [3, 1]) (5 : Int) =
